@@ -72,15 +72,42 @@ def calls_to(ctx, f, *targets):
     return calls_matching(ctx, f, lambda x: x in ts)
 
 
+CAN = 'placement.context:RequestContext.can'
+
+
+def _effect_free_prefix(ctx, f, stmts):
+    """Straight-line statements that only authorise: the only call is
+    RequestContext.can (subscripts / attribute reads to reach the context
+    are allowed)."""
+    for st in stmts:
+        if not isinstance(st, (ast.Expr, ast.Assign)):
+            return False
+        if isinstance(st, ast.Assign) and not all(
+                isinstance(t, ast.Name) for t in st.targets):
+            return False
+        for n in ast.walk(st):
+            if isinstance(n, (ast.Lambda, ast.Yield, ast.YieldFrom,
+                              ast.Await)):
+                return False
+            if isinstance(n, ast.Call):
+                s = ctx.cg.site_of.get(n)
+                if s is None or [c.qbase for c in s.callees] != [CAN]:
+                    return False
+    return True
+
+
 def delegate_of(ctx, f):
-    """A thin wrapper ``return g(req, ...)`` -> g (project function)."""
+    """A thin wrapper ``[authorise;] return g(req, ...)`` -> g (project
+    function).  The statements before the return only run the policy
+    check, so the logic of the handler is g's."""
     body = [s for s in f.node.body if not (
         isinstance(s, ast.Expr) and isinstance(s.value, ast.Constant))]
-    if len(body) == 1 and isinstance(body[0], ast.Return) and isinstance(
-            body[0].value, ast.Call):
-        s = ctx.cg.site_of.get(body[0].value)
-        if s is not None and len(s.callees) == 1:
-            return s.callees[0], body[0].value
+    if body and isinstance(body[-1], ast.Return) and isinstance(
+            body[-1].value, ast.Call):
+        s = ctx.cg.site_of.get(body[-1].value)
+        if s is not None and len(s.callees) == 1 and (
+                len(body) == 1 or _effect_free_prefix(ctx, f, body[:-1])):
+            return s.callees[0], body[-1].value
     return None, None
 
 
